@@ -786,9 +786,12 @@ func mustFail(c *Case, o Op, ex fr.Exchange) bool {
 		return false
 	}
 	read := q.M == "GET" || q.M == "HEAD"
-	if (o.Kind == "fetchref" || o.Kind == "bfetchref") && q.M == "GET" && ex.R.CLen == nil {
-		// a GET without Content-Length only supplies the body: the descriptor is
-		// derived from a second (HEAD) request, the headers of the GET are not used
+	// FetchReference whose GET carries no Content-Length derives the descriptor from a second
+	// (HEAD) request: length and media type of the GET are then not "what was requested" --
+	// but the body it returns comes from this GET, so a digest header that is unparsable or
+	// names other content than the digest asked for must still make the call fail
+	noLenGet := (o.Kind == "fetchref" || o.Kind == "bfetchref") && q.M == "GET" && ex.R.CLen == nil
+	if noLenGet && f != "dig-other" && f != "dig-garbage" {
 		return false
 	}
 	// what the call knows about the content it asked for
@@ -802,6 +805,8 @@ func mustFail(c *Case, o Op, ex fr.Exchange) bool {
 	case "dig-garbage":
 		return (read && (q.EP.Kind == "blob" || q.EP.Kind == "man")) || q.M == "DELETE" ||
 			(q.M == "PUT" && q.EP.Kind == "man") || (q.M == "POST" && orig == 201)
+		// (the final PUT of a blob upload ignores an unparsable digest header: only a
+		// well-formed one naming other content contradicts the descriptor)
 	case "dig-other":
 		// the header names other content than the one requested
 		contradicts := wantDigest != "" && ex.R.Dig != nil && *ex.R.Dig != wantDigest
@@ -809,7 +814,7 @@ func mustFail(c *Case, o Op, ex fr.Exchange) bool {
 			return false
 		}
 		if q.M == "PUT" {
-			return q.EP.Kind == "man"
+			return q.EP.Kind == "man" || q.EP.Kind == "sess" // manifest PUT and the blob upload's final PUT
 		}
 		if q.M == "POST" {
 			return orig == 201
